@@ -1,6 +1,6 @@
 (* C03 — Configured decoding limits are enforced exactly.  Statements only. *)
 From Coq Require Import List ZArith.
-From OV Require Import C01.Codec C01.Builtins C01.Types C01.Model C03.Model C03.Proofs.
+From OV Require Import C01.Codec C01.Builtins C01.Types C01.Model C03.Model C03.Proofs C03.OracleProofs.
 Open Scope Z_scope.
 
 (* Strings and byte strings (utf8 = true / false; limit = max_string_length / max_byte_string_length),
@@ -59,12 +59,9 @@ Theorem C03_nested_limit_error : forall t v o d rest, wf_ty t v -> offset_ns o =
 Proof. exact nested_limit_error. Qed.
 Print Assumptions C03_nested_limit_error.
 
-(* The oracle holds on the model.  Full statement:
-     forall c, valid c -> known c = 0 -> oracle c (C03.Model.run c) = true.
-   Proved for the value cases and the chunk cases; for the raw length-field cases (CLen, 20 nesting
-   contexts) the statement is covered by C03_string_* / C03_array_* for the length field itself, but
-   the symbolic evaluation of each context prefix is not done. *)
-Theorem C03_oracle_partial : forall c, valid c -> proved_case c -> known c = 0 ->
-  oracle c (C03.Model.run c) = true.
-Proof. exact oracle_holds_partial. Qed.
-Print Assumptions C03_oracle_partial.
+(* The oracle holds on the model, for every case: values, chunks, and the raw length fields in all 20
+   nesting contexts (each context prefix is evaluated symbolically: after it the decoder continues as
+   the string / byte string / array decoder on the remaining bytes, C03.Contexts) *)
+Theorem C03_oracle : forall c, valid c -> known c = 0 -> oracle c (C03.Model.run c) = true.
+Proof. exact C03.OracleProofs.oracle_holds. Qed.
+Print Assumptions C03_oracle.
